@@ -363,10 +363,105 @@ Proof.
   repeat split; auto; intros.
   - rewrite B1. rewrite Nat.min_id. bd; auto. symmetry. apply K1. lia.
   - rewrite B2. subst o2. unfold store_results. cbn -[Nat.ltb nth conv_results Nat.min].
-    Show. rewrite Nat.min_id. rewrite Nat.mul_1_l. rewrite (Nat.min_l _ _ Hnn). bd; auto; lia.
-  - rewrite B3 by congruence. destruct (per_f V d); [discriminate|].
+    rewrite Nat.min_id. rewrite Nat.add_0_r. rewrite (Nat.min_l _ _ Hnn). bd; auto; lia.
+  - assert (Ep : per_f V d = false) by congruence. rewrite B3 by exact Ep. rewrite Ep.
     bd; auto. symmetry. apply K3; auto. lia.
-  - rewrite B4 by congruence. bd; auto; symmetry; apply K4; auto; lia.
+  - assert (Ep : per_f V d = true) by congruence. rewrite B4 by exact Ep.
+    bd; auto; symmetry; apply K4; auto; lia.
+Qed.
+
+
+Lemma convert_result_outofplace din dout ntz nt cs :
+  Inv din -> Inv dout -> vpt_of_Z ntz = Some nt -> conv_spec (ty V din) nt = Some cs ->
+  dim_ok (cs_dim cs) (rows V din) (cols V din) = true ->
+  snd (convertf din dout false ntz) = ok V /\ Inv (fst (convertf din dout false ntz)) /\
+  ArraySpec.arr_eq V (ArraySpec.abs V (fst (convertf din dout false ntz)))
+                   (conv_target din nt cs (out_perf din cs false)).
+Proof.
+  intros HI HO Ht Hs Hd.
+  pose proof (conv_spec_shape _ _ _ _ _ Hs Hd) as Sh.
+  pose proof HI as (I1 & I2 & I3 & (K1 & K2 & K3 & K4) & I4 & I5 & I6 & I7 & I8).
+  pose proof (nn_ge (rows V din)) as Hnn.
+  assert (Hm : (Z.of_nat (out_rows V din (cs_kind cs) * out_cols V din (cs_kind cs)) <= INT_MAX)%Z).
+  { unfold out_rows, out_cols, cells in *. destruct (cs_kind cs); try exact I8.
+    destruct Sh as [Hsq _]. rewrite <- Hsq in *. rewrite Nat.ltb_irrefl. lia. }
+  pose proof (setup_out_facts din dout (cs_kind cs) HI HO Hm) as (Es & Ie & Fe).
+  unfold convert. rewrite Ht, Hs, Hd. cbn [negb].
+  destruct (setup_out V vzero vdef fixed din dout (cs_kind cs)) as [e x] eqn:Ee. cbn [fst snd] in Es, Ie, Fe.
+  subst x. cbn [o_ret ok].
+  destruct Fe as (G1 & G2 & G3 & G4 & G5 & G6 & G7 & G8 & G9 & G10 & G11 & G12 & G13).
+  cbn [ArraySpec.abs a_ty a_rows a_cols a_freqs a_perf a_fv a_dat a_z0 a_fz0 a_ftype a_fmt a_fprec a_dprec] in *.
+  pose proof Ie as (J1 & J2 & J3 & _).
+  unfold out_perf, conv_target, conv_dat, conv_len.
+  destruct (cs_kind cs) eqn:Hk; unfold out_rows, out_cols, cells, ports in *.
+  - (* same type: copy *)
+    subst nt. rewrite G2, G3, G4 in *.
+    destruct (Nat.leb_spec (freqs V din) (f_alloc V din)); [|lia].
+    destruct (Nat.leb_spec (rows V din * cols V din) (m_alloc V din)); [|lia].
+    destruct (Nat.leb_spec (freqs V din) (f_alloc V e)); [|lia].
+    destruct (Nat.leb_spec (rows V din * cols V din) (m_alloc V e)); [|lia]. cbn [andb fst snd].
+    split; [reflexivity|]. split.
+    + assert (IC : Inv (copy_cells V din e)).
+      { apply copy_cells_inv; [exact Ie|lia|unfold cells; rewrite G2, G3; lia]. }
+      pose proof (inv_set_type (copy_cells V din e) (ty V din) IC) as IT.
+      cbn in IT. rewrite G2, G3, G4 in IT. apply IT. exact I4.
+    + unfold ArraySpec.arr_eq, copy_cells. cbn -[Nat.ltb]. rewrite G2, G3, G4, G5, G10, G11, G12, G13.
+      repeat split; auto; intros.
+      * rewrite G6. bd; auto. symmetry. apply K1. lia.
+      * rewrite G7. bd; auto; symmetry; apply K2; lia.
+      * rewrite G8 by assumption. unfold setup_perf, copyz in *.
+        destruct (per_f V din) eqn:Ep; cbn [negb andb]; [rewrite andb_false_r; reflexivity|].
+        rewrite andb_true_r. bd; auto. symmetry. apply K3; auto. lia.
+      * rewrite G9 by assumption. unfold setup_perf, copyz in *.
+        destruct (per_f V din) eqn:Ep; [|rewrite andb_false_r in *; cbn in *; congruence].
+        bd; auto; symmetry; apply K4; auto; lia.
+  - (* matrix to matrix *)
+    destruct Sh as [Hsq Hv]. rewrite <- Hsq in *. rewrite Nat.max_id in *. rewrite G2, G3, G4 in *.
+    destruct (Nat.leb_spec (freqs V din) (f_alloc V din)); [|lia].
+    destruct (Nat.leb_spec (rows V din * rows V din) (m_alloc V din)); [|lia].
+    destruct (Nat.leb_spec (rows V din) (p_alloc V din)); [|lia].
+    destruct (Nat.leb_spec (freqs V din) (f_alloc V e)); [|lia].
+    destruct (Nat.leb_spec (rows V din * rows V din) (m_alloc V e)); [|lia]. cbn [andb fst snd].
+    split; [reflexivity|]. split.
+    + set (o2 := store_results V vzero e (freqs V din) (rows V din * rows V din) (conv_results V conv din cs)).
+      assert (IS : Inv o2).
+      { apply store_results_inv; [exact Ie|lia|unfold cells; rewrite G2, G3; lia]. }
+      pose proof (inv_set_type o2 nt IS) as IT. cbn in IT. rewrite G2, G3, G4 in IT. apply IT. exact Hv.
+    + unfold ArraySpec.arr_eq, store_results. cbn -[Nat.ltb nth conv_results].
+      rewrite G2, G3, G4, G5, G10, G11, G12, G13. rewrite Nat.max_id.
+      repeat split; auto; intros.
+      * rewrite G6. bd; auto. symmetry. apply K1. lia.
+      * rewrite G7. reflexivity.
+      * rewrite G8 by assumption. unfold setup_perf, copyz in *. rewrite Nat.max_id in *.
+        destruct (per_f V din) eqn:Ep; cbn [negb andb]; [rewrite andb_false_r; reflexivity|].
+        rewrite andb_true_r. bd; auto. symmetry. apply K3; auto. lia.
+      * rewrite G9 by assumption. unfold setup_perf, copyz in *. rewrite Nat.max_id in *.
+        destruct (per_f V din) eqn:Ep; [|rewrite andb_false_r in *; cbn in *; congruence].
+        bd; auto; symmetry; apply K4; auto; lia.
+  - (* matrix to Zin *)
+    destruct Sh as [Hsq Hz]. subst nt. rewrite <- Hsq in *. rewrite Nat.max_id in *.
+    rewrite Nat.ltb_irrefl in *. rewrite G2, G3, G4 in *.
+    destruct (Nat.leb_spec (freqs V din) (f_alloc V din)); [|lia].
+    destruct (Nat.leb_spec (rows V din * rows V din) (m_alloc V din)); [|lia].
+    destruct (Nat.leb_spec (rows V din) (p_alloc V din)); [|lia].
+    destruct (Nat.leb_spec (freqs V din) (f_alloc V e)); [|lia].
+    destruct (Nat.leb_spec (rows V din) (m_alloc V e)); [|lia]. cbn [andb fst snd].
+    split; [reflexivity|]. split.
+    + set (o2 := store_results V vzero e (freqs V din) (rows V din) (conv_results V conv din cs)).
+      assert (IS : Inv o2).
+      { apply store_results_inv; [exact Ie|lia|unfold cells; rewrite G2, G3; lia]. }
+      pose proof (inv_set_type o2 VZIN IS) as IT. cbn in IT. rewrite G2, G3, G4 in IT. apply IT. reflexivity.
+    + unfold ArraySpec.arr_eq, store_results. cbn -[Nat.ltb nth conv_results Nat.max].
+      rewrite G2, G3, G4, G5, G10, G11, G12, G13. rewrite Nat.ltb_irrefl.
+      repeat split; auto; intros.
+      * rewrite G6. bd; auto. symmetry. apply K1. lia.
+      * rewrite G7. reflexivity.
+      * rewrite G8 by assumption. unfold setup_perf, copyz in *.
+        destruct (per_f V din) eqn:Ep; cbn [negb andb]; [rewrite andb_false_r; reflexivity|].
+        rewrite andb_true_r. bd; auto; symmetry; apply K3; auto; lia.
+      * rewrite G9 by assumption. unfold setup_perf, copyz in *.
+        destruct (per_f V din) eqn:Ep; [|rewrite andb_false_r in *; cbn in *; congruence].
+        bd; auto; symmetry; apply K4; auto; lia.
 Qed.
 
 End Result.
